@@ -31,6 +31,53 @@ def matcher_cases(rnd, n):
     return cases
 
 
+def update_cases(rnd, n):
+    """a filter changed at run time (modRoute / modDest give only the options that change): afterwards the route's and the
+    destination's filter must decide like a matcher built afresh from the resulting six options"""
+    cases, cur = [], []
+    for i in range(n):
+        m = tg.matcher(rnd, density=0.4, allow_space=False)
+        if rnd.random() < 0.7 and not m[4]:
+            m[4] = tg.regex(rnd)
+        if rnd.random() < 0.3 and not m[5]:
+            m[5] = tg.regex(rnd)
+        m2 = tg.matcher(rnd, density=0.4, allow_space=False)
+        if rnd.random() < 0.6:
+            m2[4] = tg.regex(rnd)
+        if rnd.random() < 0.3:
+            m2[5] = tg.regex(rnd)
+        upd = []
+        for k in range(6):
+            r = rnd.random()
+            # '=' keeps the option, the new value may also be empty (the option is cleared)
+            upd.append("=" if r < 0.5 else tg.hx(m2[k]))
+        if all(u == "=" for u in upd):
+            upd[rnd.choice([4, 5])] = tg.hx(tg.regex(rnd))
+        final = [m[k] if upd[k] == "=" else m2[k] for k in range(6)]
+        names = rxgen.names_for(rnd, m[4] + " " + m[5], 3) + rxgen.names_for(rnd, final[4] + " " + final[5], 4) + [gen.name(rnd) for _ in range(2)]
+        for nm in names:
+            cur.append("u %s %s %s" % (" ".join(tg.hx(x) for x in m), " ".join(upd), tg.hx(nm)))
+        if len(cur) >= 200:
+            cases.append(("u%d" % len(cases), cur))
+            cur = []
+    if cur:
+        cases.append(("u%d" % len(cases), cur))
+    return cases
+
+
+def update_monitor(lines, out):
+    for l, o in zip(lines, out):
+        f = o.split()
+        if f[0] != "u":
+            continue
+        if not (f[1] == f[2] == f[3]):
+            g = l.split()
+            dec = lambda h: b"" if h == "-" else bytes.fromhex(h)
+            return ("after updating the filter %r with %r, Match(%r) is route=%s destination=%s, but a filter built afresh from the resulting options says %s"
+                    % ([dec(x) for x in g[1:7]], [x if x == "=" else dec(x) for x in g[7:13]], dec(g[13]), f[1], f[2], f[3]))
+    return None
+
+
 def make_match_monitor(ctx):
     """model-free: conj6 with Go's regexp queried directly (harness `rx`), and prefix soundness"""
     from . import common
@@ -287,6 +334,12 @@ def run(ctx):
     mc = matcher_cases(ctx.rng("match"), ctx.scale(700, 15000))
     ctx.stream("matcher", "match", mc, canon=canon_match, monitor=make_match_monitor(ctx), spec_exact=True, shrink=False,
                              classify=lambda l, o: "match=%d/%d" % (sum(1 for x in o if x.startswith("1")), len(o)))
+    ctx.stream("filter-updates", "match", update_cases(ctx.rng("upd"), ctx.scale(150, 3000)), model=False, monitor=update_monitor, shrink=False,
+               classify=lambda l, o: "match=%d/%d" % (sum(1 for x in o if x.startswith("u 1")), len(o)))
+    # the same pipeline while the running table is changed through its admin API between bursts of repeated traffic: real table
+    # vs the model rebuilt from the resulting configuration (anything remembered from before a change shows as a difference)
+    ctx.stream("table-history", "table", tg.history_cases(ctx.rng("c03h"), ctx.scale(50, 1000), density=0.5), classify=classify, nontrivial=nontrivial,
+               spec_exact=True, timeout=ctx.scale(600, 3000), removable=tg.HISTORY_REMOVABLE)
     prefix_stream(ctx)
     # table level: filters whose sub/regex options could hit the value or timestamp text
     rndt = ctx.rng("c03t")
